@@ -21,7 +21,7 @@ CHECKS = {
          "DESIGN.md section 4, C04"),
  "C05": ("model_checking",
          "exhaustive schedule enumeration over harness-stepped real leader/follower engines with observation at every follower apply",
-         "Every schedule of length <= 3 (quick) / <= 5 (thorough, time-capped) over 12 events (6 kinds of leader writes incl. non-idempotent transaction and a 300 KiB put that is larger than one follower proposal, an advanced reader warming the leader's log cache, follower poll, snapshot recovery, leader snapshot+log compaction keeping 0/1 entries, follower engine restart) x message limits {1 B, 300 B, default} x leader log cache {0,2}: real engines, real LogServer/SnapshotServer over gRPC, real replication worker stepped one poll/recovery at a time; at every follower apply and after every event the follower's content must equal the leader content recorded at the follower's leader index, which never decreases; then bounded polls reach the leader state; table sets converge under reconcile for every create/delete/reconcile sequence up to length 4.",
+         "Every schedule of length <= 3 (quick) / <= 5 (thorough, time-capped) over 12 events (6 kinds of leader writes incl. non-idempotent transaction and a 300 KiB put that is larger than one follower proposal, an advanced reader warming the leader's log cache, follower poll, snapshot recovery, leader snapshot+log compaction keeping 0/1 entries, follower engine restart) x message limits {1 B, 300 B, default} x leader log cache {0,2}: real engines, real LogServer/SnapshotServer over gRPC, real replication worker stepped one poll/recovery at a time; at every follower apply and after every event the follower's content must equal the leader content recorded at the follower's leader index, which never decreases; then bounded polls reach the leader state; table sets converge under reconcile for every create/delete/reconcile sequence up to length 4 from the empty set and up to length 3 from a replicated table.",
          "Trusted: single-node dragonboat clusters as a black box; quiescence between events by polling with generous deadlines (misses are inconclusive). states = distinct observed (leader writes, follower index, follower content); all traces are implementation traces.",
          "DESIGN.md section 4, C05"),
  "C17": ("exploration",
@@ -96,7 +96,7 @@ CHECKS = {
          "DESIGN.md section 4, C12"),
  "C01": ("exploration",
          "bounded exhaustive sequence enumeration on the real FSM vs a sorted-map reference model",
-         "Every command sequence up to depth 3 (quick) / 4 (thorough) over a 29-command alphabet on prefix-related keys, under two batchings, plus every range delete x every range read over a 14-key adversarial byte alphabet, is executed on a real fsm.FSM (pebble on a strict in-memory FS) and every result, read and index is compared with a plain sorted map; all probe reads are repeated after a memtable flush and after close + reopen (same answers required). Exhaustive within the stated alphabet and depth; says nothing beyond them.",
+         "Every command sequence up to depth 3 (quick) / 4 (thorough) over a 29-command alphabet on prefix-related keys, under two batchings, plus every range delete x every range read over a 14-key adversarial byte alphabet, is executed on a real fsm.FSM (pebble on a strict in-memory FS) and every result, read and index is compared with a plain sorted map; all probe reads are repeated after a memtable flush and after close + reopen (same answers required). Exhaustive within the stated alphabet and depth; says nothing beyond them. Plus every pair of key lengths 1..20 through one apply call whose later commands read the call's own pending writes.",
          "Trusted: the reference model refkv (150 lines), pebble's MemFS. Keys/values outside the alphabets and sequences beyond the depth are not covered.",
          "DESIGN.md section 4, C01"),
 }
